@@ -8,6 +8,7 @@ import BSModel.Gen.Render
 import BSModel.Props.C09
 import BSModel.Proofs.RenderEnt
 import BSModel.Proofs.RenderWritten
+import BSModel.Proofs.RenderWrittenNorm
 import BSModel.Props.C04
 /-! # C05 — serialising and re-parsing gives the same tree back
 
@@ -740,6 +741,41 @@ theorem rendered_text_callbacks (P : BS.Tokenizer.Params) (hP : BS.WriterText.Pa
       (BS.Tokenizer.run P (renderL ci f none ds)).flag = .ok ∧ (BS.Tokenizer.run P (renderL ci f none ds)).st.s = [] := by
   rw [render_is_written ci hci f hf iv ds h]
   exact BS.Props.C04.callbacks_of_written_document P hP iv _ _ hw
+
+
+/-- **C04's `normalise` of the written document is this model's `normaliseL`**, for every forest (no hypothesis): as
+    trees of the builder model (`toDocL`: names, nesting, strings with their classes; attributes are reported by C04
+    separately as `startInfos`), with the builder configuration read off `PCfg` (`bcfgOf`) and any numbering of the
+    classes that agrees with the adapter's ids of the special ones. -/
+theorem normalise_is_c04_normalise (p : PCfg) (f : Fmt) (clsId : SCls → BS.Builder.Cls) (hid : ClsIdOK clsId) (ds : List Node) :
+    toDocL clsId (normaliseL p f ds) = BS.Writer.normalise (bcfgOf p clsId) (toWDocL f ds) :=
+  normalise_bridge p f clsId hid ds
+
+/-- **parse(render(t)) = the normal form of t, through the tokenizer model, in this model's vocabulary.** For every
+    `PCfg` whose root name is neither whitespace-preserving nor a string container, every adapter configuration with
+    `EntOK`, every `ParamsOK` parameters, the 'minimal' formatter and every `RenderWritable` forest: the tree built from
+    the tokenizer model's callbacks on the rendered text is `normaliseL p f ds` — the same normal form
+    `reparse_roundtrip` reaches from the assumed stream `emitR`, so `same_elements/_text/_specials`, `normalise_idem_iff`
+    … apply to it. (Attributes: C04's `startInfos` of the written attributes `evAttrs`, from which `normAttrs` is
+    computed by `Tag.__init__`'s multi-valued split — not restated here.) -/
+theorem reparse_roundtrip_tokenized_normalise (p : PCfg) (clsId : SCls → BS.Builder.Cls) (hid : ClsIdOK clsId)
+    (hroot : p.preserveWs.contains rootFrame.name = false ∧ lookupL p.containers rootFrame.name = none)
+    (acfg : BS.Adapter.ACfg) (P : BS.Tokenizer.Params) (hP : BS.WriterText.ParamsOK P) (he : BS.WriterMin.EntOK acfg)
+    (ci : SCls → ClsInfo) (hci : ∀ c, ci c = assumedMarkup c) (f : Fmt) (hf : IsMinimal f) (ds : List Node)
+    (h : RenderWritable (bcfgOf p clsId) acfg f ds) :
+    (BS.Adapter.adapterBuild (bcfgOf p clsId) acfg
+        (BS.Tokenizer.callbacks (BS.Tokenizer.run P (renderL ci f none ds)))).1 =
+      toDocL clsId (normaliseL p f ds) := by
+  have hc : BS.Builder.CfgOK (bcfgOf p clsId) := ⟨by simpa [bcfgOf] using hroot.1, by simp [bcfgOf, hroot.2]⟩
+  rw [reparse_roundtrip_tokenized (bcfgOf p clsId) acfg hc P hP he ci hci f hf ds h]
+  exact (normalise_is_c04_normalise p f clsId hid ds).symm
+
+/-- the live configuration and a class numbering satisfy the hypotheses -/
+def liveClsId : SCls → BS.Builder.Cls
+  | .navigable => 0 | .comment => 1 | .cdata => 2 | .pi => 3 | .declaration => 4 | .doctype => 5
+  | .stylesheet => 6 | .script => 7 | .template => 8 | .rubyText => 9 | .rubyParen => 10 | .xmlpi => 11 | .preformatted => 12
+example : ClsIdOK liveClsId ∧ livePCfg.preserveWs.contains rootFrame.name = false ∧
+    lookupL livePCfg.containers rootFrame.name = none := ⟨⟨rfl, rfl, rfl, rfl, rfl⟩, by decide, by decide⟩
 
 /-- non-vacuity on C04's sample configuration (`xB`, `xA`: `br` void, `pre` preserving) with the references added -/
 def tkA : BS.Adapter.ACfg :=
